@@ -498,6 +498,10 @@ def c04_families(rng, tier):
     fams.append(fam("equal_slot_pairs", pairs, "sizes 2..7: EVERY slot pair (i,j) made equal, three hands each", profiles=["release", "chk"], pinned=True))
     fams.append(fam("seeded_arrangements", rnd, "seeded hands: valid / one duplicated slot / one alphabet word / several alphabet words",
                     categories=cats, profiles=["release", "chk"], pinned=True))
+    cb = DECK + [0]
+    small = [line("valid 2", [a, b]) for a in cb for b in cb] + [line("valid 3", [a, b, c]) for a in cb for b in cb for c in cb]
+    fams.append(fam("all_two_three", small, "ALL 53^2 two-slot and 53^3 three-slot arrangements over {52 cards, blank}", exhaustive=True,
+                    profiles=["release"], pinned=True))
     ws, wc = words_family(rng, 2000 if tier == "quick" else 200000)
     fams.append(fam("filter", ["filter %d" % w for w in ws], "the per-slot recogniser on cards, near-miss words and seeded u32 (its complete "
                     "2^32 graph is regenerated into Gen/Scan.v on every run)", categories=wc, pinned=True))
@@ -604,6 +608,8 @@ def c11_families(rng, tier):
     for k in range(2, 8):
         for m in multisets_of(alpha, k):
             ms.append(line("sort %d" % k, rng.shuffle(m)))
+    cb = DECK + [0, 0xFFFFFFFF]
+    ms += [line("sort 2", [a, b]) for a in cb for b in cb]   # ALL two-slot arrangements over {52 cards, blank, u32::MAX}
     n = 30000 if tier == "quick" else 500000
     rnd, cats = [], {"random_u32": 0, "cards": 0, "card_or_blank_repeats": 0}
     for i in range(n):
@@ -778,6 +784,8 @@ def c15_families(rng, tier):
                 g = [0] * k
                 g[i] = g[j] = h[i]
                 hands.append(line("bcfrom %d" % k, g))
+    cb = DECK + [0]
+    hands += [line("bcfrom 2", [a, b]) for a in cb for b in cb]   # ALL two-slot arrangements over {52 cards, blank}
     for k in range(2, 8):
         hands.append(line("bcfrom %d" % k, [0] * k))
         hands.append(line("bcfrom %d" % k, [DECK[0]] * k))
@@ -856,8 +864,6 @@ def c19_families(rng, tier):
     for n_slots in (6, 7):
         ws = [100 + 11 * i for i in range(n_slots)]
         tuples = list(itertools.product(range(n_slots), repeat=5))
-        if tier == "quick":
-            tuples = rng.sample(tuples, 4000)
         for t in tuples:
             perms.append("perm %d %s %s" % (n_slots, " ".join(map(str, ws)), " ".join(map(str, t))))
         for bad in ([0, 1, 2, 3, n_slots], [255, 0, 0, 0, 0], [n_slots, n_slots, 0, 1, 2]):
@@ -866,8 +872,8 @@ def c19_families(rng, tier):
         fam("histories", hist, "every setter of every size after every constructor on distinct sentinel words; seeded histories of 1..40 "
             "constructor / setter calls with arbitrary u32 words; after EVERY step the container is read back by to_arr, accessors and iter",
             categories=cats, pinned=True),
-        fam("five_from_permutation", perms, "slot-index selection from six and seven slots: in-range index tuples (%s) and out-of-range ones (panic)"
-            % ("a seeded 4000 of the 6^5 / 7^5" if tier == "quick" else "ALL 6^5 and 7^5"), exhaustive=(tier != "quick"), pinned=True),
+        fam("five_from_permutation", perms, "slot-index selection from six and seven slots: ALL 6^5 and 7^5 in-range index tuples, and out-of-range ones (panic)",
+            exhaustive=True, pinned=True),
     ]
 
 
